@@ -41,6 +41,7 @@ type importer struct {
 
 	signalEnumRegistry []*SignalEnum
 	signalEnums        map[string]*SignalEnum
+	sizedSignalEnums   map[string]*SignalEnum
 
 	dbcExtMuxes map[string]*dbc.ExtendedMux
 }
@@ -64,6 +65,7 @@ func newImporter() *importer {
 
 		signalEnumRegistry: []*SignalEnum{},
 		signalEnums:        make(map[string]*SignalEnum),
+		sizedSignalEnums:   make(map[string]*SignalEnum),
 
 		dbcExtMuxes: make(map[string]*dbc.ExtendedMux),
 	}
@@ -230,7 +232,7 @@ func (i *importer) importAttributes(dbcAtts []*dbc.Attribute, dbcAttDefs []*dbc.
 
 				strVal, err := enumAtt.GetValueAtIndex(dbcAttVal.ValueInt)
 				if err != nil {
-					i.errorf(dbcAttVal, err)
+					return i.errorf(dbcAttVal, err)
 				}
 				value = strVal
 
@@ -245,9 +247,18 @@ func (i *importer) importAttributes(dbcAtts []*dbc.Attribute, dbcAttDefs []*dbc.
 			value = dbcAttVal.ValueInt
 
 		case dbc.AttributeValueHex:
+			if att.Type() == AttributeTypeFloat {
+				value = float64(dbcAttVal.ValueHex)
+				break
+			}
 			value = int(dbcAttVal.ValueHex)
 
 		case dbc.AttributeValueFloat:
+			// an integer attribute whose value is written as a decimal number
+			if att.Type() == AttributeTypeInteger {
+				value = int(dbcAttVal.ValueFloat)
+				break
+			}
 			value = dbcAttVal.ValueFloat
 		}
 
@@ -719,10 +730,18 @@ func (i *importer) importMuxSignal(dbcMuxSig *dbc.Signal, dbcMsgID uint32, muxed
 					return nil, i.errorf(valRange, &GroupIDError{GroupID: int(valRange.To), Err: ErrOutOfBounds})
 				}
 
+				if valRange.From > valRange.To {
+					return nil, i.errorf(valRange, &GroupIDError{GroupID: int(valRange.From), Err: ErrOutOfBounds})
+				}
+
 				for j := int(valRange.From); j <= int(valRange.To); j++ {
 					groupIDs = append(groupIDs, j)
 				}
 			}
+
+			// ranges can overlap: every group counts once
+			slices.Sort(groupIDs)
+			groupIDs = slices.Compact(groupIDs)
 
 			if len(groupIDs) == muxSig.groupCount {
 				groupIDs = []int{}
@@ -751,6 +770,11 @@ func (i *importer) importMuxSignal(dbcMuxSig *dbc.Signal, dbcMsgID uint32, muxed
 func (i *importer) importSignal(dbcSig *dbc.Signal, dbcMsgID uint32) (Signal, error) {
 	var sig Signal
 
+	// a raw value is at most 64 bits wide
+	if int(dbcSig.Size) > maxSize {
+		return nil, i.errorf(dbcSig, &SignalSizeError{Size: int(dbcSig.Size), Err: ErrOutOfBounds})
+	}
+
 	sigName := dbcSig.Name
 	sigKey := i.getSignalKey(dbcMsgID, sigName)
 
@@ -760,9 +784,43 @@ func (i *importer) importSignal(dbcSig *dbc.Signal, dbcMsgID uint32) (Signal, er
 			return nil, i.errorf(dbcSig, err)
 		}
 
+		// the enum signal must have the size stated by the file: an enum that is already
+		// used by signals of another size cannot be shared, a copy with its own minimum size is used
 		dbcSigSize := int(dbcSig.Size)
-		if enumSig.GetSize() < dbcSigSize {
-			sigEnum.SetMinSize(dbcSigSize)
+		if enumSig.GetSize() != dbcSigSize {
+			if sigEnum.GetSize() > dbcSigSize && sigEnum.MinSize() <= 1 {
+				return nil, i.errorf(dbcSig, &SignalSizeError{Size: dbcSigSize, Err: ErrTooSmall})
+			}
+
+			sizedEnumKey := fmt.Sprintf("%s_%d", sigEnum.entityID, dbcSigSize)
+			sizedEnum, ok := i.sizedSignalEnums[sizedEnumKey]
+			if !ok {
+				if sigEnum.ReferenceCount() == 1 {
+					// the enum is used only by this signal
+					sizedEnum = sigEnum
+				} else {
+					sizedEnum, err = sigEnum.Clone()
+					if err != nil {
+						return nil, i.errorf(dbcSig, err)
+					}
+				}
+
+				if err := sizedEnum.SetMinSize(dbcSigSize); err != nil {
+					return nil, i.errorf(dbcSig, err)
+				}
+
+				if sizedEnum.GetSize() != dbcSigSize {
+					return nil, i.errorf(dbcSig, &SignalSizeError{Size: dbcSigSize, Err: ErrTooSmall})
+				}
+
+				i.sizedSignalEnums[sizedEnumKey] = sizedEnum
+			}
+
+			if sizedEnum != sigEnum {
+				if err := enumSig.SetEnum(sizedEnum); err != nil {
+					return nil, i.errorf(dbcSig, err)
+				}
+			}
 		}
 
 		sig = enumSig
